@@ -111,6 +111,17 @@ impl<'a> Interpreter<'a> {
         }
     }
 
+    /// An interpreter for code that runs on behalf of this one (a macro evaluating its body):
+    /// it continues this interpreter's call depth, so the depth limit also bounds recursion
+    /// that passes through macros.
+    pub fn nested<'b>(&self, cel: &'b CelContext, bindings: &'b BindContext) -> Interpreter<'b> {
+        Interpreter {
+            cel: Some(cel),
+            bindings: Some(bindings),
+            depth: ScopedCounter::starting_at(self.depth.count()),
+        }
+    }
+
     pub fn empty() -> Interpreter<'a> {
         Interpreter {
             cel: None,
